@@ -9,8 +9,7 @@ CONSTANT Rule
 
 Ops == <<"*", "+", "-", "<", "==", "&&", "||">>
 \* (sequences, not sets: TLC can not order records whose v fields hold different types)
-Leaves == <<[op |-> "const", v |-> BoolV(TRUE)], [op |-> "const", v |-> BoolV(FALSE)], [op |-> "const", v |-> IntV(1)],
-            [op |-> "const", v |-> IntV(2)], [op |-> "const", v |-> IntV(3)]>>
+Leaves == <<[op |-> "const", v |-> BoolV(TRUE)], [op |-> "const", v |-> IntV(1)], [op |-> "const", v |-> IntV(3)]>>
 Bin(o, l, r) == [op |-> o, l |-> l, r |-> r]
 Not(l) == [op |-> "!", l |-> l]
 NL == Len(Leaves)
@@ -20,12 +19,12 @@ D1 == Leaves \o [n \in 1..(NOps * NL * NL) |-> Bin(Ops[((n - 1) \div (NL * NL)) 
 
 VARIABLES t, d       \* the equation built so far, its depth
 vars == <<t, d>>
-Init == \E i \in 1..NL : t = Leaves[i] /\ d = 0
+Init == \E i \in 1..Len(D1) : t = D1[i] /\ d = 1
 \* jp.Eq(left, right) etc.: the tree built so far becomes the left or the right operand
-WrapLeft == d < 2 /\ \E o \in 1..NOps, x \in 1..Len(D1) : t' = Bin(Ops[o], t, D1[x]) /\ d' = (IF d = 0 THEN 1 ELSE 2)
-WrapRight == d < 2 /\ \E o \in 1..NOps, x \in 1..Len(D1) : t' = Bin(Ops[o], D1[x], t) /\ d' = (IF d = 0 THEN 1 ELSE 2)
+WrapLeft == d = 1 /\ \E o \in 1..NOps, x \in 1..Len(D1) : t' = Bin(Ops[o], t, D1[x]) /\ d' = 2
+WrapRight == d = 1 /\ \E o \in 1..NOps, x \in 1..Len(D1) : t' = Bin(Ops[o], D1[x], t) /\ d' = 2
 \* jp.Not(arg)
-Negate == d < 2 /\ t' = Not(t) /\ d' = d + 1
+Negate == d <= 2 /\ t' = Not(t) /\ d' = d + 1
 Next == WrapLeft \/ WrapRight \/ Negate
 Spec == Init /\ [][Next]_vars
 
